@@ -573,3 +573,15 @@ def literal_prefix(t):
     except Exception:  # noqa
         return None
     return None
+
+
+def split_literal_prefix(t):
+    """-> (literal prefix text, list of the remaining concat arguments) of a term `"lit" ++ a ++ b ...`, or None"""
+    try:
+        if z3.is_string_value(t):
+            return t.as_string(), []
+        if z3.is_app(t) and t.decl().kind() == z3.Z3_OP_SEQ_CONCAT and t.num_args() >= 1 and z3.is_string_value(t.arg(0)):
+            return t.arg(0).as_string(), [t.arg(i) for i in range(1, t.num_args())]
+    except Exception:  # noqa
+        return None
+    return None
